@@ -438,3 +438,8 @@ PROPS['C01']['bounds'] += ' M also: const_transmute reaches its union read iff t
 # C14: the chunked strategy beyond the quick bound
 PROPS['C14']['mir']['thorough'] = [mrun(['hex.small', 'hex.medium', 'hex.large', 'hex.xlarge'], timeout=3000)]
 PROPS['C14']['bounds'] += ' Thorough: N up to 8300 (eight full chunks and a partial one).'
+
+# zero-sized elements with a destructor through the sequence operations (C09) and the regrouping operations (C11)
+for pid in ('C09', 'C11'):
+    PROPS[pid]['kani']['quick'][0]['filters'] += ['c03::q::seq::zst']
+    PROPS[pid]['kani']['thorough'][0]['filters'] += ['c03::q::seq::zst', 'c03::t::seq::zst']
